@@ -257,6 +257,12 @@ pub fn cmd_defrag_stream(args: &[String]) -> i32 {
         emit(&mut p, "parse_record", 22, vec![3u8; n], &mut out);
         sent += n;
     }
+    // (full-size first fragment: previous buffer length + this record would pass the limit if the stale length were counted)
+    let mut f1 = vec![16u8, 0, 0x80, 0x00];
+    f1.extend((0..16380u32).map(|i| (i * 3 % 256) as u8));
+    emit(&mut p, "parse_record", 22, f1, &mut out);
+    emit(&mut p, "parse_record", 22, vec![9u8; 16384], &mut out);
+    emit(&mut p, "parse_record", 22, vec![8u8; 4], &mut out);
     emit(&mut p, "parse_record", 22, vec![16, 0, 0, 6, 1, 2], &mut out);
     emit(&mut p, "parse_record", 22, vec![3, 4, 5, 6], &mut out);
     emit(&mut p, "parse_record", 22, vec![14, 0, 0, 0], &mut out);
